@@ -96,6 +96,7 @@ type State struct {
 	CLIFiles     map[string]string // file name -> content
 	CLIStdout    []Value           // *StrV chunks printed to standard output
 	CLIExit      int               // -1: not exited; otherwise the os.Exit status
+	PendingTokens Value // token slice the next lexer of the package hands out (vTokenReader)
 	SharedWrites []string          // package-level variables written after initialisation
 	FeasLen      int               // length of PC when the path condition was last found satisfiable
 	Forked       bool              // some symbolic branch or split has been taken on this path
